@@ -2,6 +2,9 @@
 use explorer::{Args, Report};
 
 mod c19;
+mod c20;
+mod c21;
+mod c25;
 mod fixtures;
 mod par;
 mod replica;
@@ -12,6 +15,9 @@ fn main() {
     explorer::quiet_panics();
     let code = match args.property.as_str() {
         "C19" => c19::run(Report::new(&args, "model_checking")),
+        "C20" => c20::run(Report::new(&args, "fault_enumeration")),
+        "C21" => c21::run(Report::new(&args, "model_checking")),
+        "C25" => c25::run(Report::new(&args, "fault_enumeration")),
         other => {
             eprintln!("vh-sync: unknown property {other}");
             2
